@@ -34,6 +34,8 @@ const TYPED_CONTEXTS: &[(&str, &[&str])] = &[
     ("a = @ { =0 => 0x01 | 1 }, {}", &["0", "1"]),
     ("a = @ { =0 => A[1] | B }, {}", &["0", "1"]),
     ("a = @ { =0 => A[1] | B }, a { {} }", &["0", "1"]),
+    // a union with a variant that has no fields at all
+    ("f = #('int | A[x: 'int]) { {} }, @ f", &["5", "A[x: 7]"]),
     // a runtime test against a partial type (through an alias) that a variant merely overlaps:
     // failing it must not exclude the variant from the later branches
     ("'r = (x: 'int)\nf = #(P[x: 'int | 'bin] | Q[y: 'int]) { ='r => 1 | {} }, @ f", &["P[x: 5]", "P[x: 0x00]", "Q[y: 9]"]),
@@ -502,6 +504,9 @@ pub const PROBES: &[&str] = &[
     "p = A[x: 1], f = #'int { p = A[x: ~], p.x }, 5 f",
     // a dispatch branch that ends in a tail call
     "g = #(A | B) { | =A => 7 | =B => A ^ }, q = B g, q",
+    // a pin next to a binder of the same name
+    "x = 1, [2, 1] =[x, &x], x",
+    "x = 1, [2, 2] =[x, &x]",
     // well-typed tail calls must stay sound
     "f = #'int { =0 => 5 | [~, 1] __integer_subtract__ ^ }, 3 f",
     "g = #['int, 'int] { .0 }, f = #'int { [~, 1] ^g }, 3 f",
